@@ -20,14 +20,22 @@ Theorem C05_prev_call_unfold : forall cs t,
 Proof. reflexivity. Qed.
 Print Assumptions C05_prev_call_unfold.
 
-(* For every completed period t: the scheduler ran in t  <->  an event was processed in t, or
+(* `resolving e`: e is a Plugin / Unplug / Recompute event (its event_type code is one of the three the
+   regenerated _process_event dispatches on).  Any other queue entry — a bare acnsim.Event or a
+   user-defined subclass — is logged in event_history but requests no schedule. *)
+Theorem C05_resolving_unfold : forall e,
+  resolving e = match e with EOther _ _ c => (c =? 0) || (c =? 1) || (c =? 2) | _ => true end.
+Proof. intros []; reflexivity. Qed.
+Print Assumptions C05_resolving_unfold.
+
+(* For every completed period t: the scheduler ran in t  <->  a resolving event was processed in t, or
    max_recompute = Some k and (it never ran before, or the last run l satisfies t - l >= k). *)
 Theorem C05_invoked_iff :
   forall N V Sch stations maxrec num_view num_apply num_charge num_store (sched : V -> Sch) evs n0 fuel st,
   run N V Sch stations maxrec num_view num_apply num_charge num_store sched fuel (init N V evs n0) = Done st ->
   forall t, 0 <= t < iter st ->
     (In t (map fst (calls st)) <->
-     (exists e, In (t, e) (hist st)) \/
+     (exists e, In (t, e) (hist st) /\ resolving e = true) \/
      (exists k, maxrec = Some k /\
                 match prev_call (map fst (calls st)) t with None => True | Some l => k <= t - l end)).
 Proof.
@@ -45,7 +53,8 @@ Theorem C05_invoked_iff_valid :
   run N V Sch stations maxrec num_view num_apply num_charge num_store sched (fuel_of evs) (init N V evs n0) = Done st ->
   forall t, 0 <= t < iter st ->
     (In t (map fst (calls st)) <->
-     ((exists e, In e evs /\ ev_ts e = t) \/ (exists x, In x (sessions_of evs) /\ s_departure x = t)) \/
+     ((exists e, In e evs /\ ev_ts e = t /\ resolving e = true) \/
+      (exists x, In x (sessions_of evs) /\ s_departure x = t)) \/
      (exists k, maxrec = Some k /\
                 match prev_call (map fst (calls st)) t with None => True | Some l => k <= t - l end)).
 Proof.
